@@ -538,9 +538,36 @@ class Escape:
                 defs = [n for n in f.module.tree.body
                         if (isinstance(n, ast.Assign) and any(isinstance(t, ast.Name) and t.id == arg.id for t in n.targets))
                         or (isinstance(n, ast.AnnAssign) and isinstance(n.target, ast.Name) and n.target.id == arg.id and n.value is not None)]
+            if len(defs) > 1:
+                # one binding per branch: the one that precedes the `with` in its own block (or an enclosing one)
+                from .load import parent as _parent
+
+                node: ast.AST | None = item
+                chosen = None
+                while node is not None and chosen is None and node is not f.node:
+                    par = _parent(node)
+                    for fld in ("body", "orelse", "finalbody"):
+                        lst = getattr(par, fld, None)
+                        if isinstance(lst, list) and any(x is node for x in lst):
+                            before = lst[:next(i for i, x in enumerate(lst) if x is node)]
+                            cand = [d for d in defs if any(d is x for x in before)]
+                            if cand:
+                                chosen = cand[-1]
+                    node = par
+                if chosen is not None:
+                    defs = [chosen]
             if len(defs) != 1:
                 raise AnalysisError(f"map_exceptions argument `{arg.id}` has {len(defs)} definitions in {f.qual}")
             arg = defs[0].value  # type: ignore[assignment]
+        if isinstance(arg, ast.Attribute) and isinstance(arg.value, ast.Name) and (arg.value.id in ("self", "cls") or (f.cls is not None and arg.value.id == f.cls.name)) and f.cls is not None:
+            # a class-level table
+            for k_ in f.cls.mro():
+                cdefs = [n for n in k_.node.body
+                         if (isinstance(n, ast.Assign) and any(isinstance(t, ast.Name) and t.id == arg.attr for t in n.targets))
+                         or (isinstance(n, ast.AnnAssign) and isinstance(n.target, ast.Name) and n.target.id == arg.attr and n.value is not None)]
+                if len(cdefs) == 1:
+                    arg = cdefs[0].value  # type: ignore[assignment]
+                    break
         if not isinstance(arg, ast.Dict):
             raise AnalysisError(f"map_exceptions argument is not a dict literal in {f.qual}")
         pairs = []
